@@ -70,6 +70,25 @@ def run(ctx):
         impls.append(ia)
         if i % 300 == 0:
             ctx.sample({"master": mt, "sources": srcs, "reported": ia[1][1] if ia[0] == "ok" else ia})
+    # sources with $variables: which definitions the code marks as consumed (the referenced ones too) is compared
+    # with the model only — the statement's reading of "unused" is about variable-free sources
+    vcases, vreqs, vimpls = [], [], []
+    for i in range(ctx.scale(400, 10000, 2000)):
+        if ctx.time_left() < 30:
+            break
+        tree, mt, srcs = _fetch.gen(rng, nested=False, n_sources=rng.choice([1, 2]), variables=True, deprecated=True)
+        env = _fetch.gen_env(rng)
+        m = freephil.parse(input_string=mt)
+        ss = [freephil.parse(input_string=s) for s in srcs]
+        ctx.case((mt, tuple(srcs), tuple(sorted(env.items()))), nontrivial=any("$" in s for s in srcs))
+        ctx.count("with_variables")
+        with _fetch.env_as(env):
+            ia = _fetch.fetch_impl(m, ss)
+        vcases.append({"master": mt, "sources": srcs, "env": env})
+        vreqs.append(_fetch.fetch_req(mt, srcs, env=env))
+        vimpls.append(ia)
+    if vreqs and ctx.mode != "impl-only":
+        ctx.corr("fetch_with_variables", vcases, vreqs, vimpls, proj=lambda r: r[1])
     # the consumer named in the property
     try:
         freephil.change_default_phil_values("a = 1\n  .type = int\n", "a = 2\nb = 3\n")
